@@ -135,22 +135,33 @@ def run(chk, replay=None):
         describe=lambda c, o: {"stream": "PIDControllerStream" if c[3] == 1 else "examples/pid.rs StreamPID", "params(sp,kp,ki,kd)": c[4:8], "events": c[8:], "per_event(update,get,same)": o})
     _nv0 = len(chk.violations)
     # --- metamorphic checks on the implementation
-    # (a) controller vs the crate's own stream assembly on present-only histories: numerically equal (+-0 identified)
-    n_asm = 0
+    # (a) controller vs the crate's own stream assembly, at every update that saw a present input: numerically equal
+    # (+-0 identified).  Known finding (proved as C04_assembly_all_events_R / C04_assembly_gap_rule): the example's update()
+    # returns early on an absent or errored input, so its derivative stream is neither updated nor reset and the first
+    # present sample after a gap differentiates against the sample before the gap; the controller restarts (D = 0).
+    n_asm = 0; n_gap = 0
     for i in range(0, len(cases), 2):
-        if meta[i][0] != "present": continue
+        mode, _, evs = meta[i]
+        if mode == "malformed": continue
         a, b = split_outputs(1, impl[i]), split_outputs(1, impl[i + 1])
+        seen_present = False
         for j, (x, y) in enumerate(zip(a, b)):
             if x == "PANIC" or y == "PANIC": break
+            if evs[j][0] != 2: continue
+            after_gap = j > 0 and evs[j - 1][0] != 2 and seen_present
+            seen_present = True
             n_asm += 1
             gx, gy = x[1], y[1]
             eq = gx == gy or (gx[0] == gy[0] == "S" and gx[1] == gy[1] and ((gx[2][0] | gy[2][0]) & 0x7FFFFFFF) == 0) \
                  or (gx[0] == gy[0] == "S" and gx[1] == gy[1] and is_nan_bits(gx[2][0]) and is_nan_bits(gy[2][0]))
             if not eq:
-                chk.violation("controller and stream assembly disagree at sample %d: %s vs %s" % (j, gx, gy),
-                              {"case": cases[i], "assembly_case": cases[i + 1], "impl": impl[i], "impl_assembly": impl[i + 1]}, True)
-                break
+                if after_gap: n_gap += 1
+                chk.violation("controller and stream assembly disagree at present sample %d: %s vs %s" % (j, gx, gy),
+                              {"case": cases[i], "assembly_case": cases[i + 1], "impl": impl[i], "impl_assembly": impl[i + 1]}, True,
+                              key="example-assembly-gap-derivative" if after_gap else None)
+                if not after_gap: break
         if len(chk.violations) > _nv0: break
+    chk.cov["assembly_disagreements_after_gap(known finding)"] = n_gap
     chk.cov["assembly_outputs_compared"] = n_asm
     # (b) shift invariance and (c) power-of-two scaling, on the implementation
     sh_cases, sh_ref, sc_cases, sc_ref = [], [], [], []
@@ -189,7 +200,7 @@ def run(chk, replay=None):
         if len(chk.violations) > _nv0: break
     chk.cov["shift_histories_checked"] = len(sh_cases); chk.cov["pow2_scaled_outputs_checked"] = n_sc
     chk.notes.append("power-of-two scaling on binary32 is measured on the implementation (exact absent overflow/underflow); proved as linearity on the real-number instance (C04_linear_R)")
-    chk.notes.append("agreement with the stream assembly: the example's StreamPID is compiled from the current source into the harness and compared on present-only histories (numerically equal, +-0 identified); its Gallina transcription (Model/Assembly.v) is tied to it bit-exactly on all histories; equality of the two models is not proved (partial)")
+    chk.notes.append("agreement with the stream assembly: the example's StreamPID is compiled from the current source into the harness and compared at every update that saw a present input (numerically equal, +-0 identified); its Gallina transcription (Model/Assembly.v) is tied to it bit-exactly on all histories; equality of the two models is proved for every present-only history on the reals and on any carrier with 0+x=x (C04A.v), and the difference after a gap is characterised exactly (C04_assembly_all_events_R)")
     if not proof["ok"] and not chk.violations:
         chk.violation("proof obligations of C04 no longer check: " + "; ".join(proof["problems"])[:1500],
                       {"theorem_file": "coq/theories/Properties/C04.v", "problems": proof["problems"]}, False)
